@@ -13,6 +13,7 @@ PROPS = {
     "C06": "analysis.props.p_c06",
     "C12": "analysis.props.p_c12",
     "C15": "analysis.props.p_c15",
+    "C16": "analysis.props.p_c16",
 }
 
 
